@@ -32,6 +32,10 @@ func pathsFor(server, prefix string) davPaths {
 }
 
 func (p davPaths) any(r *rt.Rand) string {
+	if r.Chance(0.12) {
+		// paths no client of a calendar server would send, but the network may
+		return rt.Pick(r, []string{p.home + "../../x", "/" + p.coll, strings.ReplaceAll(p.coll, "/", "//"), p.coll + "%00", p.obj + "/", p.coll + "../", p.root + "..", "/%2e%2e/", p.coll + strings.Repeat("a", 300), p.coll + "a/b/c/d/e/f", "*", p.principal + "?x=1", p.coll + "%zz"[:0] + "%C3%A9.ics", p.home + ".", "/\\"})
+	}
 	return rt.Pick(r, []string{p.root, p.principal, p.home, p.coll, p.obj, p.deeper, p.missingObj, strings.TrimSuffix(p.coll, "/"), strings.TrimSuffix(p.home, "/"), "/.well-known/caldav", "/.well-known/carddav", "/"})
 }
 
@@ -257,7 +261,13 @@ func davRequest(r *rt.Rand, server string, p davPaths) *Step {
 	}
 	switch server {
 	case "caldav", "carddav":
-		switch r.Weighted([]int{30, 6, 8, 14, 12, 12, 6, 4, 4, 4}) {
+		switch r.Weighted([]int{30, 6, 8, 14, 12, 12, 6, 4, 4, 4, 5}) {
+		case 10:
+			st.Method, st.Target, st.Kind = rt.Pick(r, []string{"LOCK", "UNLOCK", "POST", "PATCH", "FOO", "ACL", "MKCALENDAR", "SEARCH", "TRACE", "propfind", "CONNECT"[:0] + "BIND"}), p.any(r), "unknown-method"
+			if r.Chance(0.4) {
+				setBody("unknown-method", propfindDoc(r, names))
+				st.set("Content-Type", xmlCT)
+			}
 		case 0:
 			st.Method, st.Target = "PROPFIND", p.any(r)
 			if r.Chance(0.85) {
